@@ -165,6 +165,88 @@ CLAIMED['C18'] = dict(
               'against an in-memory kazoo fake with sqlite read-back + oracle',
     ref='DESIGN.md section 7 C18')
 
+CLAIMED['C05'] = dict(
+    engine='E-cell',
+    text='Rocq theorems for all histories of events and cycles and all identity choices (set.pop nondeterminism): '
+         'C05_invariant / C05_cycle (identity invariant in every reachable state / kept by any cycle), C05_unique (no '
+         'two instances of a group hold one identity), C05_offer_sound (every identity on offer is in [0,count) and '
+         'held by nobody), C05_held_nonneg. Partial: the end-of-cycle facts (held identity below the current count, '
+         'placed => holds one, not placed => holds none) are decided by the per-operation correspondence and the '
+         'C05 oracle; the unchanged tree violated the last one in three ways, repaired by fix: commits (see '
+         'known_findings.json).',
+    note=SCHED_NOTE + ' Hypotheses (wf_ops_id): a new instance holds no identity; configured counts are non-negative.',
+    technique='Rocq proof (inductive invariant over primitive transitions, quantified over identity choices) + '
+              'per-operation digest correspondence (cases.v/vm_compute) + oracle',
+    ref='DESIGN.md section 7 C05')
+MASTER_NOTE = ('Coq kernel; translator tables_c10.py; in-memory Backend (put overwrites and keeps ctime, delete '
+               'recursive, no-op on a missing node); crash = prefix of the write list (checked against a real '
+               'injected raise per history); virtual clock; watches, threads and election not modelled; set iteration '
+               'order inside an init_schedule block fed from the implementation; at most 4 servers.')
+CLAIMED['C10'] = dict(
+    engine='E-master',
+    text='Rocq theorems over the executable publication model Master/Publish.v, for every tuple list, store and crash '
+         'point: C10_crash_no_double (no instance under two servers after any prefix of Master.reschedule\'s write '
+         'list, given the store held nothing for a listed instance outside its before-server), '
+         'C10_published_after_all_writes, C10_integrity_on_clean_store/_sound/_delete_only, '
+         'C10_restart_drops_duplicates; loop order, guards and filter re-extracted from master.py\'s AST every run '
+         '(C10_source_shape). Refuted on the unchanged tree with witnesses and confirmed on the real Master: '
+         'init_schedule creates before it deletes (C10_init_crash_refuted; partial: C10_init_crash_partial), '
+         'check_placement_integrity repairs then fails its assert (C10_integrity_refuted), within_before is necessary '
+         '(C10_stale_entry_refuted). That the real handlers keep within_before, and that a restarted master '
+         'completes on every cut, is decided by E-master: every write of every publication of every generated '
+         'history is a crash point followed by a fresh Master on a copy of the store.',
+    note=MASTER_NOTE,
+    technique='Rocq proof (induction over the two-pass write list) over AST-regenerated publication shape + '
+              'exhaustive crash-point enumeration on the real Master + differential correspondence of write lists',
+    ref='DESIGN.md section 7 C10')
+CLAIMED['C09'] = dict(
+    engine='E-master',
+    text='Rocq theorems C09_publication / C09_published_equals_model (after Master.reschedule the store equals the '
+         'model\'s placement node by node - server, identity, identity_count, expires - and nothing else is touched) '
+         'and C09_startup_names, for all tuple lists and stores, under the two stated hypotheses tying the store to '
+         'what the cycle read (within_before, unchanged_published), each shown necessary by a _refuted witness; '
+         'publication shape re-extracted from the AST each run. Partial: preservation of the two hypotheses by the '
+         'event handlers between cycles, and content after init_schedule (C09_startup_content_refuted), are decided '
+         'by the oracle on the real Master (content of every node compared with Master.cell after every cycle and '
+         'restart) and the write-list correspondence.',
+    note=MASTER_NOTE + ' Every cycle preceded by a Tick of at least 1 s; identity_count is not part of the statement.',
+    technique='Rocq proof over AST-regenerated publication shape + content oracle on the real Master over an '
+              'in-memory backend + differential correspondence (cases.v/vm_compute)',
+    ref='DESIGN.md section 7 C09')
+CLAIMED['C11'] = dict(
+    engine='E-master',
+    text='Rocq theorems on the scheduler model: C11_reload_one_server (after all nodes of a server are processed, every '
+         'node healthy at its turn - instance scheduled, presence not younger than the node, Sched srv_restore accepts '
+         'it - is on that server with the recorded expiry and identity), C11_reload_touches_nothing_else (nothing '
+         'unrecorded is placed), the decision table of restore_placement (C11_healthy_restored_verbatim, '
+         '_restore_never_invents, _nothing_unrecorded, _rebooted_server_not_verbatim) and C11_duplicates_dropped. '
+         'Partial: composition over Loader.servers and the earlier load_model steps are decided by the oracle on the '
+         'real load_model() after every restart of every generated history, and by the correspondence of every '
+         'restore_placement call.',
+    note=MASTER_NOTE + ' Server.restore/put answers are taken from the implementation in the correspondence and from '
+         'Sched/Tree.v in RestoreSchedP.v; the oracle skips over-committed servers and doubly recorded instances.',
+    technique='Rocq proof (frame lemmas over Sched primitives, fold over a server\'s nodes) + oracle and '
+              'differential correspondence on the real Loader',
+    ref='DESIGN.md section 7 C11')
+CLAIMED['C15'] = dict(
+    engine='E-codec',
+    text='Rocq theorems per codec, for all inputs of the stated domains: base-N round trip and injectivity for every '
+         'duplicate-free alphabet; 13-character unique ids for every seed below 2^77 and the unique-name round trip; '
+         'from_data(to_data e)=e for all 13 trace event classes plus event-node names; get_rule(_filenameify r)=r '
+         'for DNAT/SNAT/PassThrough on the regex domain; json/ZooKeeper payload round trip up to dict order with '
+         'None<->empty payload; schema-generic LDAP entry store/load normal form for the 15 generated schemas; and '
+         '_diff_entries applied to old yields new. Alphabets, templates, regex texts, enum tables and schemas are '
+         'regenerated from the source every run and checked by vm_compute; function behaviour is tied by '
+         'differential execution of model and implementation on structured and malformed streams.',
+    note='Partial theorem for events: why=None of pending/pending_delete/aborted is a known finding, with a refuted '
+         'witness. LDAP per-class wrappers and option-indexed lists are oracle-only. ASCII-only regex and int() '
+         'models; floats, surrogates and the YAML fallback are outside the JSON model; the LDAP server is modelled as '
+         '_remove_empty plus ADD/REPLACE/DELETE; Python string/format semantics are modelled.',
+    technique='Rocq proof over source-regenerated tables (module values plus fail-closed AST extraction) with '
+              'computational table checks + differential correspondence (cases.v/vm_compute, 20 case kinds) + '
+              'round-trip/injectivity oracle',
+    ref='DESIGN.md section 7 C15')
+
 NOT_YET = {}
 
 
@@ -215,6 +297,11 @@ def main():
              'kind_free_text': 'differential: real PresenceResourceService (baton-passing threads) and trace '
                                'cleanup functions (cut at every write) on an in-memory ZooKeeper vs Node/Presence.v, '
                                'Trace/Archive.v'},
+            {'name': 'E-master', 'path': 'harness/emaster.py', 'serves_properties': ['C09', 'C10', 'C11'],
+             'kind_free_text': 'real master.Master over an in-memory scheduler Backend, driven through its handlers; '
+                               'every backend write of every publication is a crash point; write lists vs Master/Publish.v'},
+            {'name': 'E-codec', 'path': 'harness/props/c15.py', 'serves_properties': ['C15'],
+             'kind_free_text': 'differential: real codec functions vs Codec/*.v on structured and malformed inputs'},
             {'name': 'E-cell', 'path': 'harness/ecell.py', 'serves_properties': ['C01', 'C02', 'C03', 'C04', 'C05',
                                                                                  'C06', 'C07', 'C08'],
              'kind_free_text': 'differential: real treadmill.scheduler Cell/Bucket/Server/Allocation/Application '
